@@ -467,6 +467,44 @@ fn main() {
             }
             seqio_verif::seqmon::trace_case(idx);
             let mut rng = Rng::derive(&[seed, shard, idx, 70]);
+            if (prop == "C07" || prop == "C16") && idx % 40 == 10 && only.map_or(true, |o| o == idx) {
+                // the generic per-record function over a user-defined reader whose data sets have an
+                // iterator with a legal but inexact size_hint
+                let threads = 1 + rng.below(if ctx.miri { 2 } else { 6 }) as u32;
+                let queue = 1 + rng.below(4);
+                let nsets = rng.below(if ctx.miri { 4 } else { 30 });
+                let sizes: Vec<usize> = (0..nsets).map(|_| if rng.chance(1, 5) { 0 } else { rng.below(12) }).collect();
+                let hint_mode = rng.below(4) as u8;
+                rep.evaluations += 1;
+                let mut j = ctx.replay_json(idx);
+                j["scenario"] = json!({"api": "parallel_records over a user-defined reader", "threads": threads, "queue": queue, "sizes": sizes, "size_hint_mode": hint_mode});
+                match guarded(|| pipe::run_item_records(threads, queue, sizes.clone(), hint_mode)) {
+                    Err(Caught::Panic(m)) | Err(Caught::Budget(m)) => rep.violation(&panic_sig(&m), format!("parallel_records panicked: {}", m), j),
+                    Ok(Err(e)) => rep.violation("spurious-error", format!("parallel_records returned an error the reader never raised: {}", e), j),
+                    Ok(Ok((got, total))) => {
+                        rep.count("custom_reader_runs_of_parallel_records");
+                        rep.map("custom_reader_size_hint_mode", &hint_mode.to_string());
+                        let mut items: Vec<u64> = got.iter().map(|g| g.0).collect();
+                        items.sort();
+                        if prop == "C07" {
+                            if items != (0..total).collect::<Vec<u64>>() {
+                                rep.violation("lost-record", format!("the reader produced {} records, the consumer function saw {} ({:?} ...)", total, items.len(), &items[..items.len().min(20)]), j.clone());
+                            }
+                            if got.iter().any(|(i, o)| *o != i.wrapping_mul(3).wrapping_add(1)) {
+                                rep.violation("foreign-result", "a record arrived with an output that is not its own".into(), j.clone());
+                            }
+                            if threads == 1 && got.windows(2).any(|w| w[1].0 < w[0].0) {
+                                rep.violation("order-single-worker", "records out of order with one worker".into(), j);
+                            }
+                        }
+                    }
+                }
+                if only.is_some() {
+                    break;
+                }
+                idx += 1;
+                continue;
+            }
             // two thirds mock reader (tagged sets), one third real readers
             let use_real = idx % 3 == 2;
             let long = !ctx.miri && idx % 400 == 7;
